@@ -936,6 +936,16 @@ func (c *Check) ruleSetLastHashAfterAdd(rule string) {
 		}
 		// only the stores of this header's own hash (BlockHash()), not of its parent
 		if derivesFromCall(a[len(a)-1], "(*wire.BlockHeader).BlockHash") == nil {
+			// ... but a store that follows a successful Add of the header moves the last hash to that header:
+			// any other value (its parent) makes the next poll's first header look new again
+			for _, ad := range adds {
+				if call, isCall := ad.Instr.(*ssa.Call); isCall {
+					if after, _ := mustPass(s.Instr, errNilEdge(sameCall(call), true)); after {
+						c.Bad(rule, "handlers.(HeadersHandler).checkStartHeight#last-hash-is-the-added-header", s.Pos(), "provenance", nil,
+							"after a header was added to the chain the last hash is set to something else than that header's own hash: the reply to the next poll starts with the tip, which is then taken for a new header and added a second time")
+					}
+				}
+			}
 			continue
 		}
 		n++
@@ -1176,7 +1186,7 @@ func (c *Check) ruleIndexBoundOnSameIndex(rule, fnKey string) {
 				if l == nil || op != token.LSS {
 					return false
 				}
-				return sameExpr(stripConv(x), idx) && (sameExpr(l, ia.X) || sharesRoot(l, ia.X))
+				return sameExpr(stripConv(x), idx) && sameListValue(l, ia.X)
 			}
 			ok2, w := mustPass(ia, g)
 			c.Decide(ok2, rule, fmt.Sprintf("%s#txout-index-checked@%d", fnKey, n), ia.Pos(), "bounds edge-cutset", w,
